@@ -163,10 +163,23 @@ def averages(check, proj):
         f = proj.resolve(mb.cls, name)
         if f is None:
             raise AnalysisError("mesh1d.%s not found (anchor vanished?)" % name)
-        got = mb.it.call_function(f, [mb.obj, d])
-        _decide(check, "MESH-AVG", f.qualname, f.loc(), A, got, w_arr, "%s(d) == %s for every data array and every face array (volume weighted)" % (name, text), key="weights")
-        gotc = mb.it.call_function(f, [mb.obj, cst])
-        _decide(check, "MESH-AVG", f.qualname, f.loc(), A, gotc, w_cst, "%s of a constant c == %s exactly" % (name, ctext), key="const")
+        # tolerance comparisons (np.isclose / allclose) the method may make are opaque conditions: each outcome
+        # is realised by some mesh, so the identity must hold on every outcome path
+        import itertools
+        mb.it.cond_policy, mb.it.cond_log = [True] * 8, []
+        mb.it.call_function(f, [mb.obj, d])
+        ncond = len(mb.it.cond_log)
+        if ncond > 3:
+            raise AnalysisError("%s: more than 3 tolerance comparisons" % f.qualname)
+        for pol in itertools.product((True, False), repeat=ncond):
+            mb.it.cond_policy, mb.it.cond_log = list(pol), []
+            got = mb.it.call_function(f, [mb.obj, d])
+            path = (" [on the path: %s]" % "; ".join(mb.it.cond_log)) if ncond else ""
+            _decide(check, "MESH-AVG", f.qualname, f.loc(), A, got, w_arr, "%s(d) == %s for every data array and every face array (volume weighted)%s" % (name, text, path), key="weights")
+            mb.it.cond_policy, mb.it.cond_log = list(pol), []
+            gotc = mb.it.call_function(f, [mb.obj, cst])
+            _decide(check, "MESH-AVG", f.qualname, f.loc(), A, gotc, w_cst, "%s of a constant c == %s exactly%s" % (name, ctext, path), key="const")
+        mb.it.cond_policy = None
 
 
 class Family:
@@ -239,6 +252,10 @@ def _mesh_2d(check, proj, cls):
         "top": (nx, A.const(1), fs + ny * nx, "j-faces (i, ny)", "outward"),
     }
     tags = at.get("_bctags")
+    from ..interp import OneShot
+    if isinstance(tags, OneShot):
+        check.violation("MESH2D-BC", q, "the boundary tags are kept as a generator object (line %d): the first enumeration exhausts it, every later list_of_bctags() yields nothing -- a second discretisation on the same mesh sees no boundary at all" % tags.line, loc, key="tags-oneshot")
+        tags = list(tags.items)
     check.record("MESH2D-BC", q, isinstance(tags, list) and sorted(tags) == sorted(want), "boundary tags are exactly left/right/top/bottom", loc, key="tags")
     for tag, (cnt, a, b, what, orient) in want.items():
         fam = io.get(tag)
